@@ -76,6 +76,7 @@ package store
 //@   loop[0] invariant offset [C01,C06,C12]: sectionOffset == wrap_s64(pos(v1r) - sbase(v1r))
 //@   loop[0] invariant reader_ok [C12]: objinv(v1r)
 //@   loop[0] step every_section_indexed [C01,C06,C12]: nrec(idx) == athead(0, nrec(idx)) + 1
+//@   call[InsertionIndex.InsertNoReplace#0] assert section_on_file [C06]: athead(0, pos(v1r)) + vsize(length) + length <= lim(v1r)
 //@   call[InsertionIndex.InsertNoReplace#0] assert record [C01,C03,C06,C12]: ref(arg0) == ref(idx) && arg1 == c && arg2 == wrap_u64(wrap_s64(athead(0, pos(v1r)) - sbase(v1r)))
 //@   call[OffsetWriteSeeker.Seek#0] assert reposition [C06,C12,C16]: ref(arg0) == ref(dataWriter) && arg1 == wrap_s64(athead(0, pos(v1r)) - sbase(v1r)) && arg2 == 0
 //@   check positioned [C06,C12,C16]: err == nil ==> wn(dataWriter) == wrap_s64(wrap_s64(athead(0, pos(v1r)) - sbase(v1r)) + wbase(dataWriter))
